@@ -6,7 +6,7 @@ use crate::util::*;
 use heathcliff::util::rlwe::sample;
 use heathcliff::util::{BlakeRNG, PRNGSeed};
 use heathcliff::verif::rng_hooks as hk;
-use heathcliff::{Ciphertext, CoeffModulus, EncryptionParameters, Encryptor, ExpandSeed, HeContext, KeyGenerator, Modulus,
+use heathcliff::{Ciphertext, CoeffModulus, EncryptionParameters, Encryptor, ExpandSeed, HeContext, KeyGenerator, Modulus, Plaintext,
                  PlainModulus, SchemeType, SecurityLevel};
 use rand::{RngCore, SeedableRng};
 use std::collections::HashSet;
@@ -292,6 +292,73 @@ fn explicit_gen(seed: &Seed, pre: usize) -> BlakeRNG {
 }
 fn probe8(g: &mut BlakeRNG) -> Vec<u8> { let mut p = vec![0u8; 8]; g.fill_bytes(&mut p); p }
 
+/// "operations handed the same explicit mask-generator state derive exactly the same mask" — and different states different masks — for EVERY
+/// `*_with_u_prng` entry point of the encryptor: two calls with generators in the same state (same seed, same number of bytes consumed), one
+/// with another state (four more bytes consumed) and one with another seed.  Symmetric forms: the mask is c1 (after expansion) — compared on the
+/// API-visible object.  Public-key forms: the mask is the ternary u (recorded sample); API-visible for BFV at the first level, where
+/// c1 - c1' = e1 - e1' has coefficients of magnitude <= 2 * 21.
+fn same_state(out: &mut Out, r: &mut Rng, cx: &Cx, enc: &Encryptor, levels: &[heathcliff::ParmsID], plain: &Plaintext, cls: &str) {
+    let ctx = &cx.ctx;
+    let expand = |c: Ciphertext| if c.contains_seed() { c.expand_seed(ctx) } else { c };
+    let names = ["encrypt_zero_symmetric_with_u_prng", "encrypt_zero_symmetric_new_with_u_prng", "encrypt_zero_symmetric_at_with_u_prng", "encrypt_zero_symmetric_new_at_with_u_prng",
+        "encrypt_symmetric_with_u_prng", "encrypt_symmetric_new_with_u_prng", "encrypt_zero_with_u_prng", "encrypt_zero_new_with_u_prng", "encrypt_zero_at_with_u_prng",
+        "encrypt_zero_new_at_with_u_prng", "encrypt_with_u_prng", "encrypt_new_with_u_prng",
+        // the routines underneath, called directly (no level switching around them)
+        "rlwe::encrypt_zero::symmetric_with_c1_prng", "rlwe::encrypt_zero::asymmetric_with_u_prng"];
+    let ntt_native = cx.scheme != SchemeType::BFV;
+    for (vi, name) in names.iter().enumerate() {
+        if cx.scheme == SchemeType::CKKS && name.starts_with("encrypt_") && !name.starts_with("encrypt_zero") { continue; }
+        let pid = levels[r.below(levels.len() as u64) as usize];
+        let gseed = seed_from(r); let pre = *r.pick(&[0usize, 1, 5, 64, 4090, 4096]);
+        let call = |g: &mut BlakeRNG| -> Ciphertext { let mut c = Ciphertext::new(); match vi {
+            0 => enc.encrypt_zero_symmetric_with_u_prng(g, &mut c), 1 => return enc.encrypt_zero_symmetric_new_with_u_prng(g),
+            2 => enc.encrypt_zero_symmetric_at_with_u_prng(&pid, g, &mut c), 3 => return enc.encrypt_zero_symmetric_new_at_with_u_prng(&pid, g),
+            4 => enc.encrypt_symmetric_with_u_prng(plain, g, &mut c), 5 => return enc.encrypt_symmetric_new_with_u_prng(plain, g),
+            6 => enc.encrypt_zero_with_u_prng(g, &mut c), 7 => return enc.encrypt_zero_new_with_u_prng(g),
+            8 => enc.encrypt_zero_at_with_u_prng(&pid, g, &mut c), 9 => return enc.encrypt_zero_new_at_with_u_prng(&pid, g),
+            10 => enc.encrypt_with_u_prng(plain, g, &mut c), 11 => return enc.encrypt_new_with_u_prng(plain, g),
+            12 => heathcliff::util::rlwe::encrypt_zero::symmetric_with_c1_prng(enc.secret_key(), ctx, &pid, ntt_native, g, false, &mut c),
+            _ => heathcliff::util::rlwe::encrypt_zero::asymmetric_with_u_prng(enc.public_key(), ctx, &pid, ntt_native, g, &mut c) } c };
+        let mut run = |r: &mut Rng, seed: &Seed, pre: usize| -> (Ciphertext, Vec<Sample>) {
+            let ent: Vec<Seed> = (0..4).map(|_| rand_seed(r)).collect();
+            let mut g = explicit_gen(seed, pre);
+            let (c, tape, _) = with_hooks(&ent, || call(&mut g));
+            (expand(c), split_tape(tape).1) };
+        let other_seed = { let mut o = rand_seed(r); if o == gseed { o[0] ^= 1; } o };
+        // (another state = four more bytes consumed: the u32 draws of the ternary sampler first align the position to 4 bytes, so positions 5..8 are ONE state for it)
+        let res = std::panic::catch_unwind(std::panic::AssertUnwindSafe(|| (run(r, &gseed, pre), run(r, &gseed, pre), run(r, &gseed, pre + 4), run(r, &other_seed, pre))));
+        let ((a, sa), (b, sb), (c, sc), (d, sd)) = match res { Ok(x) => x, Err(_) => { let m = LAST_PANIC.with(|p| p.borrow().clone()); out.raw(&format!("!FAIL same_state_same_mask {} :: refused: {} # samestate-{}", name, m.replace('\n', " "), cls)); continue } };
+        let id = format!("{} scheme={} n={} seed={} consumed={}", name, cx.scheme as u8, cx.n, hex(&gseed[..8]), pre);
+        if vi < 6 || vi == 12 {
+            // symmetric: c1 is the mask
+            let same = a.poly(1) == b.poly(1) && a.parms_id() == b.parms_id();
+            let diff = a.poly(1) != c.poly(1) && a.poly(1) != d.poly(1);
+            // fresh error all the same: c0 differs between the two equal-state calls (the error generator is not the caller's)
+            let fresh_err = a.poly(0) != b.poly(0) || cx.n < 16;
+            verdict(out, same, &format!("same_state_same_mask {}", id), &format!("samestate-{}", cls), "two calls handed generators in the same state produced different c1");
+            verdict(out, diff, &format!("different_state_different_mask {}", id), &format!("samestate-{}", cls), "a generator in another state (one more byte consumed / another seed) produced the same c1");
+            verdict(out, fresh_err, &format!("same_state_fresh_error {}", id), &format!("samestate-{}", cls), "two calls share c0: the error was not drawn afresh");
+        } else {
+            let u = |s: &Vec<Sample>| s.iter().find(|x| x.kind == "ternary").map(|x| x.data.clone());
+            let (ua, ub, uc, ud) = (u(&sa), u(&sb), u(&sc), u(&sd));
+            verdict(out, ua.is_some() && ua == ub, &format!("same_state_same_mask {}", id), &format!("samestate-{}", cls), "two calls handed generators in the same state drew different ternary masks u");
+            // (3^N masks: coincidences by chance below N = 32 are not counted, as in the history verdicts)
+            if cx.n >= 32 { verdict(out, ua != uc && ua != ud, &format!("different_state_different_mask {}", id), &format!("samestate-{}", cls), "a generator in another state drew the same ternary mask u"); }
+            if cx.scheme == SchemeType::BFV && a.parms_id() == &levels[0] && !a.is_ntt_form() && vi != 13 {
+                let qs: Vec<u64> = ctx.first_context_data().unwrap().parms().coeff_modulus().iter().map(|m| m.value()).collect();
+                let n = cx.n;
+                let small = |x: &Ciphertext, y: &Ciphertext| (0..qs.len()).all(|j| (0..n).all(|i| { let q = qs[j]; let dlt = (x.poly(1)[j * n + i] + q - y.poly(1)[j * n + i]) % q; dlt <= 42 || q - dlt <= 42 }));
+                verdict(out, small(&a, &b), &format!("same_state_c1_differs_by_errors_only {}", id), &format!("samestate-{}", cls), "c1 of two equal-state public-key encryptions differ by more than two error polynomials");
+                if cx.n >= 32 { verdict(out, !small(&a, &d), &format!("different_state_c1_far {}", id), &format!("samestate-{}", cls), "c1 under another mask state is within error distance"); }
+            }
+            // fresh errors all the same (recorded samples: below the key level the switch down by the special prime rounds the error term away, so
+            // c0 of two equal-state calls may well coincide there)
+            let e = |s: &Vec<Sample>| s.iter().filter(|x| x.kind == "centered_binomial").map(|x| x.data.clone()).collect::<Vec<_>>();
+            verdict(out, (e(&sa).len() == 2 && e(&sa) != e(&sb)) || cx.n < 16, &format!("same_state_fresh_error {}", id), &format!("samestate-{}", cls), "two calls drew the same error polynomials");
+        }
+    }
+}
+
 /// one history of key generations / encryptions on one context, entropy overridden (replayable), tape armed
 fn history(out: &mut Out, r: &mut Rng, cx: &Cx, tag: &str, len: usize) {
     let mut h = Hist::default();
@@ -322,6 +389,11 @@ fn history(out: &mut Out, r: &mut Rng, cx: &Cx, tag: &str, len: usize) {
     let ent = fresh(r, 4);
     let (pk, _, _) = with_hooks(&ent, || kg.create_public_key(false));
     let enc = Encryptor::new(ctx.clone()).set_secret_key(kg.secret_key().clone()).set_public_key(pk);
+    let levels: Vec<heathcliff::ParmsID> = { let mut v = vec![]; let mut cur = ctx.first_context_data(); while let Some(c) = cur { v.push(*c.parms_id()); cur = c.next_context_data(); } v };
+    let small_plain = { let mut p = Plaintext::new(); p.resize(3.min(cx.n)); for (i, x) in p.data_mut().iter_mut().enumerate() { *x = 1 + i as u64; } p };
+    // destination forms write into a USED ciphertext (made outside the recorded window)
+    let dirty_ct = { let (c, _, _) = with_hooks(&fresh(r, 4), || enc.encrypt_zero_symmetric_new_at(levels.last().unwrap())); if c.contains_seed() { c.expand_seed(ctx) } else { c } };
+    same_state(out, r, cx, &enc, &levels, &small_plain, &cls);
     for _ in 0..len {
         let ent = fresh(r, 4);
         let gseed = seed_from(r); let pre = *r.pick(&[0usize, 0, 1, 5, 64, 4090, 4096]);
@@ -331,15 +403,27 @@ fn history(out: &mut Out, r: &mut Rng, cx: &Cx, tag: &str, len: usize) {
                 // symmetric encryption of zero / public key; seeded or not; factory generators or an explicit one
                 let seeded = r.chance(1, 2); let explicit = choice >= 2; let as_pk = choice % 2 == 1;
                 let mut g = explicit_gen(&gseed, pre);
+                // which entry point: 0 = zero at the first level, 1 = zero `_at` a level of the chain, 2 = a plaintext (integer schemes)
+                let var = if as_pk { 0 } else { let v = r.below(3); if v == 2 && cx.scheme == SchemeType::CKKS { 1 } else { v } };
+                let pid = if var == 1 { levels[r.below(levels.len() as u64) as usize] } else { levels[0] };
+                let level_moduli: Vec<u64> = ctx.get_context_data(&pid).unwrap().parms().coeff_modulus().iter().map(|m| m.value()).collect();
                 let (ct, tape, used) = with_hooks(&ent, || -> Ciphertext {
                     if as_pk {
                         let pk = if explicit { kg.create_public_key_with_u_prng(seeded, &mut g) } else { kg.create_public_key(seeded) };
                         pk.as_ciphertext().clone()
                     } else if seeded {
-                        if explicit { enc.encrypt_zero_symmetric_new_with_u_prng(&mut g) } else { enc.encrypt_zero_symmetric_new() }
+                        match (explicit, var) {
+                            (true, 0) => enc.encrypt_zero_symmetric_new_with_u_prng(&mut g), (false, 0) => enc.encrypt_zero_symmetric_new(),
+                            (true, 1) => enc.encrypt_zero_symmetric_new_at_with_u_prng(&pid, &mut g), (false, 1) => enc.encrypt_zero_symmetric_new_at(&pid),
+                            (true, _) => enc.encrypt_symmetric_new_with_u_prng(&small_plain, &mut g), (false, _) => enc.encrypt_symmetric_new(&small_plain),
+                        }
                     } else {
                         let mut c = Ciphertext::new();
-                        if explicit { enc.encrypt_zero_symmetric_with_u_prng(&mut g, &mut c) } else { enc.encrypt_zero_symmetric(&mut c) }
+                        match (explicit, var) {
+                            (true, 0) => enc.encrypt_zero_symmetric_with_u_prng(&mut g, &mut c), (false, 0) => enc.encrypt_zero_symmetric(&mut c),
+                            (true, 1) => enc.encrypt_zero_symmetric_at_with_u_prng(&pid, &mut g, &mut c), (false, 1) => enc.encrypt_zero_symmetric_at(&pid, &mut c),
+                            (true, _) => enc.encrypt_symmetric_with_u_prng(&small_plain, &mut g, &mut c), (false, _) => enc.encrypt_symmetric(&small_plain, &mut c),
+                        }
                         c
                     }
                 });
@@ -357,21 +441,36 @@ fn history(out: &mut Out, r: &mut Rng, cx: &Cx, tag: &str, len: usize) {
                 // API-visible c1 is the recorded uniform sample (after expansion when seeded)
                 let c1: Vec<u64> = if ct.contains_seed() { ct.clone().expand_seed(ctx).poly(1).to_vec() } else { ct.poly(1).to_vec() };
                 // (BFV without seed: the draw is taken as NTT form and c1 is its inverse transform — not compared here)
-                if seeded || as_pk || cx.scheme != SchemeType::BFV {
+                // (likewise when a seed was requested but the level has no room for it: the library then falls back to the unseeded path)
+                if (seeded && (room || as_pk)) || as_pk || cx.scheme != SchemeType::BFV {
                     verdict(out, c1 == samples[0].data, &format!("c1_is_expansion_of_seed {} {} seeded={}", tag, h.ops, seeded), &cls, "c1 of the ciphertext differs from the uniform polynomial drawn for it");
                 }
-                let want_moduli = if as_pk { &key_moduli } else { &first_moduli };
+                let want_moduli = if as_pk { &key_moduli } else { &level_moduli };
                 verdict(out, &samples[0].moduli == want_moduli, &format!("sym_parms {} {}", tag, h.ops), &cls, "sampled at unexpected parameters");
                 if let (Some(s), false) = (ps, explicit) { h.stored_seeds.push(s); }
                 if !explicit { h.masks.push(samples[0].data.clone()); }
                 let probe = if explicit { Some(probe8(&mut g)) } else { None };
-                emit_sym(out, &format!("sym{}{}-{}", if seeded { "-seeded" } else { "" }, if explicit { "-explicit" } else { "" }, cls), &ent,
+                emit_sym(out, &format!("sym{}{}{}-{}", if seeded { "-seeded" } else { "" }, if explicit { "-explicit" } else { "" }, ["", "-at", "-plain"][var as usize], cls), &ent,
                          if explicit { Some((gseed, pre)) } else { None }, ps, used, &samples[0], &samples[1], probe);
             }
             4 | 5 | 6 => {
                 let explicit = choice == 6;
                 let mut g = explicit_gen(&gseed, pre);
-                let (ct, tape, used) = with_hooks(&ent, || if explicit { enc.encrypt_zero_new_with_u_prng(&mut g) } else { enc.encrypt_zero_new() });
+                // which entry point: 0 = zero (value-returning), 1 = zero into a destination, 2 / 3 = zero `_at` a level (below the first level the mask is
+                // drawn one level up and the result switched down), 4 / 5 = a plaintext (integer schemes)
+                let var = { let v = r.below(6); if v >= 4 && cx.scheme == SchemeType::CKKS { v - 2 } else { v } };
+                let pid = if var == 2 || var == 3 { levels[r.below(levels.len() as u64) as usize] } else { levels[0] };
+                let (ct, tape, used) = with_hooks(&ent, || -> Ciphertext {
+                    let mut c = dirty_ct.clone();
+                    match (explicit, var) {
+                        (true, 0) => return enc.encrypt_zero_new_with_u_prng(&mut g), (false, 0) => return enc.encrypt_zero_new(),
+                        (true, 1) => enc.encrypt_zero_with_u_prng(&mut g, &mut c), (false, 1) => enc.encrypt_zero(&mut c),
+                        (true, 2) => return enc.encrypt_zero_new_at_with_u_prng(&pid, &mut g), (false, 2) => return enc.encrypt_zero_new_at(&pid),
+                        (true, 3) => enc.encrypt_zero_at_with_u_prng(&pid, &mut g, &mut c), (false, 3) => enc.encrypt_zero_at(&pid, &mut c),
+                        (true, 4) => return enc.encrypt_new_with_u_prng(&small_plain, &mut g), (false, 4) => return enc.encrypt_new(&small_plain),
+                        (true, _) => enc.encrypt_with_u_prng(&small_plain, &mut g, &mut c), (false, _) => enc.encrypt(&small_plain, &mut c),
+                    }
+                    c });
                 let (gens, samples) = split_tape(tape);
                 note(&mut h, &gens, &samples);
                 let want_gens = if explicit { 1 } else { 2 };
@@ -387,7 +486,7 @@ fn history(out: &mut Out, r: &mut Rng, cx: &Cx, tag: &str, len: usize) {
                 // Both are therefore counted from N = 32 on only; the uniform masks of symmetric encryptions and keys are counted at every N.)
                 if !explicit && cx.n >= 32 { h.masks.push(samples[0].data.clone()); h.masks.push(ct.poly(1).to_vec()); }
                 let probe = if explicit { Some(probe8(&mut g)) } else { None };
-                emit_asym(out, &format!("asym{}-{}", if explicit { "-explicit" } else { "" }, cls), &ent, if explicit { Some((gseed, pre)) } else { None }, used,
+                emit_asym(out, &format!("asym{}{}-{}", if explicit { "-explicit" } else { "" }, ["", "-dest", "-at", "-at-dest", "-plain", "-plain-dest"][var as usize], cls), &ent, if explicit { Some((gseed, pre)) } else { None }, used,
                           &samples[0], &samples[1..].iter().collect::<Vec<_>>(), probe);
             }
             7 => {
@@ -650,6 +749,15 @@ pub fn run(out: &mut Out, thorough: bool, seed: u64, extra: &[String]) {
             let (ops, cls) = gen_ops(&mut r, style);
             let lhs = format!("rng_ops {} {}", xofdata(&[(s, ops_upper(&ops))]), ops_str(&ops));
             out.case(&lhs, cls, || run_ops(&s, &ops));
+            // the generator FACTORY with a fixed seed hands out that very generator, every time (`get_rng`, `get_rng_rc`), and `set_seed` replaces the seed
+            if rep % 6 == 0 {
+                use heathcliff::util::BlakeRNGFactory;
+                let run_gen = |mut g: BlakeRNG| -> String { let mut v: Vec<String> = ops.iter().map(|o| apply(&mut g, o)).collect(); v.push(apply(&mut g, &Op::F(16))); v.join(",") };
+                let f = BlakeRNGFactory::from_seed(PRNGSeed(s));
+                out.case(&lhs, &format!("factory-{}", cls), || run_gen(f.get_rng()));
+                out.case(&lhs, &format!("factory-second-{}", cls), || { let _ = f.get_rng(); run_gen(f.get_rng_rc()) });
+                out.case(&lhs, &format!("factory-set-seed-{}", cls), || { let mut f2 = BlakeRNGFactory::from_seed(PRNGSeed([0x5a; 64])); f2.set_seed(PRNGSeed(s)); run_gen(f2.get_rng()) });
+            }
             if style <= 1 {
                 // the same total read in one piece, and in two other chunkings (harness-side oracle, independent blake3 recomputation)
                 let total: usize = ops.iter().map(|o| if let Op::F(n) = o { *n } else { 0 }).sum();
